@@ -469,7 +469,9 @@ class EqvDomain(EventsMixin, Domain):
                 'check_random_state', 'minimize', 'graphical_lasso',
                 '_graphical_lasso', 'unravel_index', 'ravel_multi_index',
                 'take_along_axis', 'full', 'nan_to_num', 'trace', 'divide',
-                'multiply', 'conjugate', 'partition', 'Counter', 'vector_norm'):
+                'multiply', 'conjugate', 'partition', 'Counter', 'vector_norm',
+                'svd', 'svdvals', 'det', 'solve', 'eigvalsh', 'eigvals',
+                'std', 'var', 'median', 'average', 'ptp'):
       ts = [tr(x) for v in allv for x in _all(v)]
       if all(t == 'Inv' for t in ts):
         t = 'Inv'
@@ -497,7 +499,7 @@ class EqvDomain(EventsMixin, Domain):
       else:
         p = 'X'
       if name in ('eigh', 'eig', 'eigsh', 'qr', 'slogdet', 'lstsq',
-                  'roc_curve', 'precision_recall_curve'):
+                  'roc_curve', 'precision_recall_curve', 'svd'):
         return V((t, p), elts=None)
       return (t, p)
     # scikit-learn estimators: fitted attributes handled in attr()
